@@ -65,6 +65,8 @@ extern "C" bool stub_isBoolOp(Logic const *, PTRef) { return nondet_bool(); }
 extern "C" PTRef stub_iteRewrite(void *, PTRef t) { return t; }
 extern "C" unsigned stub_nofPartitions(PartitionManager const *) { return 0; }
 extern "C" bool stub_trackPartitions(MainSolver const *) { return g_track; }
+static int g_invalidate_calls;          // PartitionManager::invalidatePartitions (the mask contents are not modelled)
+extern "C" void stub_invalidatePartitions(PartitionManager *, ipartitions_t const &) { g_invalidate_calls++; }
 extern "C" int stub_getPartitionIndex(PartitionManager const *, PTRef) { return 0; }
 extern "C" PTRef stub_rewriteMaxArity(MainSolver *, PTRef t) { return t; }
 extern "C" bool stub_cfgFalse(SMTConfig const *) { return false; }
@@ -235,7 +237,7 @@ template <bool late> static void command(uint8_t cmd) {
         VWITNESS("push");
     } else if (cmd == 1) {                           // ---- pop
         Snap b = snap();
-        int rc = g_restore_calls;
+        int rc = g_restore_calls, ic = g_invalidate_calls;
         bool r = m->pop();
         if (g_depth == 0) {
             VASSERT(!r, "pop on the base frame is refused");
@@ -243,6 +245,7 @@ template <bool late> static void command(uint8_t cmd) {
             VWITNESS("pop-refused");
         } else {
             VASSERT(r, "pop above the base frame succeeds");
+            VASSERT(g_invalidate_calls == ic + (g_track ? 1 : 0), "when partitions are tracked, every pop invalidates the partitions of the popped level (whether or not it was simplified)");
             g_depth--;
             VASSERT((g_restore_calls == rc + 1) == !m->frames.last().unsat && g_restore_calls <= rc + 1, "restoreOK is called iff the new top frame is not flagged unsat");
             if constexpr (late) {
